@@ -263,7 +263,9 @@ CLAIMS = {
          "two-input operator, in front of chains made of 9 cutting operators x 30 intermediates (before / after) and random deeper chains, local "
          "and _threads forms, and compares pulls / task liveness / trace with the model; flat_map / concat_map over of(v) and group_by followed "
          "by flat_map are among the intermediates (identity nodes in the model: the back channel must pass through them). Scheduler-moving "
-         "operators between producer and cutter are covered by the static table only (behind them the stream ends in a later task).", "DESIGN.md section 5 C16"),
+         "operators between producer and cutter are covered by the static table only (behind them the stream ends in a later task). A chain "
+         "of single-input operators BETWEEN the iterator and its input of a two-input operator (skip, element_at, filter, take_last, ...), with "
+         "the stream ended from the side by the other input: nothing more is pulled (run_iter_case_pre).", "DESIGN.md section 5 C16"),
  "C15": ("Theorems: C15_exactly_once_right_after (for every sequence of items, completes, errors and unsubscriptions, each repeated at will, "
          "with finalize alone or with take(n) before or after it: the callback runs in the segment of the first trigger - first unsubscription, "
          "first terminal reaching the operator, or the item completing an upstream take - as the last thing there, and nowhere else), "
